@@ -30,6 +30,18 @@ theorem count_filter_ne (l : List Nat) (b x : Nat) :
     apply List.count_filter
     simp [hx]
 
+theorem nodup_map_inj {α β : Type} {f : α → β} {l : List α} (h : (l.map f).Nodup) {a b : α} (ha : a ∈ l) (hb : b ∈ l)
+    (e : f a = f b) : a = b := by
+  induction l with
+  | nil => cases ha
+  | cons x xs ih =>
+    simp only [List.map_cons, List.nodup_cons, List.mem_map, not_exists, not_and] at h
+    rcases List.mem_cons.mp ha with rfl | ha' <;> rcases List.mem_cons.mp hb with rfl | hb'
+    · rfl
+    · exact absurd e.symm (h.1 b hb')
+    · exact absurd e (h.1 a ha')
+    · exact ih h.2 ha' hb'
+
 theorem mem_ids_of_mem_live {h : Heap} {b n : Nat} (hm : (b, n) ∈ h.live) : b ∈ h.ids :=
   List.mem_map.mpr ⟨(b, n), hm, rfl⟩
 
@@ -893,5 +905,375 @@ theorem inv_allocBuffer {s : State} (h : Inv s) (sz itemsz : Nat) (hpol : s.cfg.
   · show some (bufResized s itemsz sz).nextFrame = _; rw [f2]
   · exact mem_sharedReuse hm1.1 sz (Or.inr (Or.inr ⟨itemsz, hpol1⟩)) hpriv rfl rfl rfl hneed rfl rfl
       (fun hm => by rw [hpol1] at hm; cases hm) rfl hm1.1.vsize_le
+
+theorem inv_stepAlloc {s : State} (hc : CfgOK s.cfg) (h : Inv s) (k sz : Nat) (hok : (stepAlloc s k sz).1.ok = true) :
+    Inv (stepAlloc s k sz).1 := by
+  unfold stepAlloc at hok ⊢
+  cases hpol : s.cfg.pol with
+  | default => simp only [hpol] at hok ⊢; exact inv_allocDefault h sz
+  | reusable => simp only [hpol] at hok ⊢; exact inv_allocReusable h sz hpol hok
+  | mtsafe => simp only [hpol] at hok ⊢; exact inv_allocMtsafe h sz hpol
+  | stack i =>
+    simp only [hpol] at hok ⊢
+    cases hk : s.objs[k]? with
+    | none => simp only [hk] at hok; cases hok
+    | some asz => simp only [hk] at hok ⊢; exact inv_allocStack h k sz asz i hpol hk hok
+  | placement bufsz => simp only [hpol] at hok ⊢; exact inv_allocPlacement h sz bufsz hpol hok
+  | buffer itemsz =>
+    simp only [hpol] at hok ⊢
+    have hi : 0 < itemsz := by simpa [CfgOK, hpol] using hc
+    exact inv_allocBuffer h sz itemsz hpol hi hok
+
+theorem inv_stepFree {s : State} (h : Inv s) (id : Nat) (hok : (stepFree s id).1.ok = true) : Inv (stepFree s id).1 := by
+  unfold stepFree at hok ⊢
+  cases hfind : s.frames.find? (fun f => f.id == id) with
+  | none => simp only [hfind] at hok; cases hok
+  | some f =>
+    simp only []
+    have hf : f ∈ s.frames := List.mem_of_find?_eq_some hfind
+    have hid : f.id = id := by have := List.find?_some hfind; simpa using this
+    unfold release
+    cases hp : f.priv with
+    | true =>
+      obtain ⟨b, hb⟩ := h.mem.priv_heap f hf hp
+      simp only [if_true, hb]
+      exact ⟨book_free h.book f hf rfl rfl rfl (by rw [hid]) rfl,
+        mem_freePriv h.mem f b hf hp hb rfl rfl rfl rfl rfl rfl rfl rfl⟩
+    | false =>
+      simp only [Bool.false_eq_true, if_false]
+      by_cases hm : s.cfg.pol = Policy.mtsafe
+      · rw [if_pos hm]
+        exact ⟨book_free h.book f hf rfl rfl rfl (by rw [hid]) rfl,
+          mem_freeShared h.mem f hf hp rfl rfl rfl rfl rfl (fun _ => rfl) rfl rfl⟩
+      · rw [if_neg hm]
+        exact ⟨book_free h.book f hf rfl rfl rfl (by rw [hid]) rfl,
+          mem_freeShared h.mem f hf hp rfl rfl rfl rfl rfl (fun e => absurd e hm) rfl rfl⟩
+
+theorem inv_stepNewobj {s : State} (h : Inv s) : Inv (stepNewobj s).1 := by
+  unfold stepNewobj
+  cases hpol : s.cfg.pol with
+  | stack i =>
+    simp only []
+    refine ⟨⟨h.book.fid_lt, h.book.born_once, h.book.life, h.book.inv_last⟩,
+      ⟨h.mem.once, h.mem.noleak, ?_, h.mem.excl, h.mem.priv_heap, ?_, h.mem.ptr_live, h.mem.ptr_none, h.mem.vsize_le, ?_⟩⟩
+    · intro f hf
+      refine Fits.mono (s := s) ?_ ?_ (fun _ _ _ hm => hm) (h.mem.fits f hf)
+      · rfl
+      intro k _
+      simp only [State.extSize, hpol]
+      rcases Nat.lt_or_ge k s.objs.length with h1 | h1
+      · simp [List.getD, List.getElem?_append_left h1]
+      · simp [List.getD, List.getElem?_eq_none h1]
+    · intro f hf hp
+      have := h.mem.shared_blk f hf hp
+      simp only [SharedAt, hpol] at this ⊢
+      obtain ⟨k, hk, hlt⟩ := this
+      exact ⟨k, hk, by simp; omega⟩
+    · intro hm; rw [hpol] at hm; cases hm
+  | default => exact h
+  | reusable => exact h
+  | mtsafe => exact h
+  | placement b => exact h
+  | buffer i => exact h
+
+theorem vresize_book {s : State} (h : Book s) (i n : Nat) : Book (vresize s i n) := by
+  unfold vresize
+  split <;> exact ⟨h.fid_lt, h.born_once, h.life, h.inv_last⟩
+
+theorem inv_stepBufset {s : State} (h : Inv s) (n : Nat) (hok : (stepBufset s n).1.ok = true) : Inv (stepBufset s n).1 := by
+  unfold stepBufset at hok ⊢
+  cases hpol : s.cfg.pol with
+  | buffer itemsz =>
+    simp only [hpol] at hok ⊢
+    have hfr0 : s.frames = [] := by
+      have : (s.ok && s.frames.isEmpty) = true := hok
+      simp only [Bool.and_eq_true, List.isEmpty_iff] at this
+      exact this.2
+    have hb := vresize_book h.book itemsz n
+    have hm := mem_vresize h.mem itemsz n hpol hfr0
+    exact ⟨⟨hb.fid_lt, hb.born_once, hb.life, hb.inv_last⟩,
+      ⟨hm.once, hm.noleak, hm.fits, hm.excl, hm.priv_heap, hm.shared_blk, hm.ptr_live, hm.ptr_none, hm.vsize_le, hm.busy_iff⟩⟩
+  | default => exact h
+  | reusable => exact h
+  | mtsafe => exact h
+  | placement b => exact h
+  | stack i => exact h
+
+theorem inv_stepDestroy {s : State} (h : Inv s) (hok : (stepDestroy s).1.ok = true) : Inv (stepDestroy s).1 := by
+  unfold stepDestroy at hok ⊢
+  have hfr0 : s.frames = [] := by
+    have : (s.ok && s.frames.isEmpty) = true := hok
+    simp only [Bool.and_eq_true, List.isEmpty_iff] at this
+    exact this.2
+  refine ⟨⟨h.book.fid_lt, h.book.born_once, h.book.life, h.book.inv_last⟩, ⟨?_, ?_, ?_, ?_, ?_, ?_, ?_, ?_, ?_, ?_⟩⟩
+  · intro b
+    have h1 := h.mem.once b
+    simp only []
+    cases hp : s.ptr with
+    | none => exact h1
+    | some p =>
+      obtain ⟨c1, c2, c3, c4⟩ := h.mem.ptr_count hp
+      simp only [Heap.delOpt, Heap.ids_del, Heap.del_dels, Heap.del_next, List.count_append, List.count_cons, List.count_nil,
+        beq_iff_eq, count_filter_ne]
+      by_cases hbp : b = p
+      · subst hbp; simp only [if_true]; rw [if_pos c4]; omega
+      · have : ¬ p = b := fun e => hbp e.symm
+        simp only [hbp, this, if_false]
+        count_omega h1
+  · intro b
+    have h1 := h.mem.noleak b
+    simp only [hfr0, privBlocks_nil, List.count_nil, Option.toList, Nat.add_zero] at h1 ⊢
+    cases hp : s.ptr with
+    | none => simp only [hp, List.count_nil] at h1; exact h1
+    | some p =>
+      simp only [hp, List.count_cons, List.count_nil, beq_iff_eq] at h1
+      simp only [Heap.delOpt, Heap.ids_del, count_filter_ne]
+      by_cases hbp : b = p
+      · simp [hbp]
+      · have : ¬ p = b := fun e => hbp e.symm
+        simp only [hbp, this, if_false] at h1 ⊢
+        omega
+  · intro f hf; simp only [hfr0] at hf; cases hf
+  · simp only [hfr0]; exact List.nodup_nil
+  · intro f hf; simp only [hfr0] at hf; cases hf
+  · intro f hf; simp only [hfr0] at hf; cases hf
+  · intro b hb; cases hb
+  · intro _; rfl
+  · exact Nat.le_refl _
+  · intro _; simp [hfr0]
+
+theorem rsAlloc_cfg (s : State) (n : Nat) : (rsAlloc s n).cfg = s.cfg := by
+  unfold rsAlloc; split <;> rfl
+
+theorem step_cfg (s : State) (op : Op) : (step s op).1.cfg = s.cfg := by
+  cases op with
+  | alloc k sz =>
+    simp only [step, stepAlloc]
+    cases hpol : s.cfg.pol with
+    | default => rfl
+    | reusable => simp only [allocReusable, addFrame, rsAlloc_cfg]
+    | mtsafe => simp only [allocMtsafe]; split <;> simp only [addFrame, rsAlloc_cfg]
+    | stack i =>
+      simp only []
+      cases hk : s.objs[k]? with
+      | none => rfl
+      | some asz => simp only [allocStack]; split <;> rfl
+    | placement b => rfl
+    | buffer i => simp only [allocBuffer, addFrame]; exact (bufResized_fields s i sz).2.2.2.2.1
+  | free id =>
+    simp only [step, stepFree]
+    cases hfind : s.frames.find? (fun f => f.id == id) with
+    | none => rfl
+    | some f =>
+      simp only [release]
+      split
+      · split <;> rfl
+      · split <;> rfl
+  | newobj => simp only [step, stepNewobj]; split <;> rfl
+  | bufset n => simp only [step, stepBufset]; split <;> first | rfl | exact vresize_cfg _ _ _
+  | destroy => rfl
+
+theorem inv_step {s : State} (hc : CfgOK s.cfg) (h : Inv s) (op : Op) (hok : (step s op).1.ok = true) : Inv (step s op).1 := by
+  cases op with
+  | alloc k sz => exact inv_stepAlloc hc h k sz hok
+  | free id => exact inv_stepFree h id hok
+  | newobj => exact inv_stepNewobj h
+  | bufset n => exact inv_stepBufset h n hok
+  | destroy => exact inv_stepDestroy h hok
+
+/-- the contract flag only ever goes down -/
+theorem step_ok_mono (s : State) (op : Op) (hok : (step s op).1.ok = true) : s.ok = true := by
+  cases op with
+  | alloc k sz =>
+    simp only [step, stepAlloc] at hok
+    cases hpol : s.cfg.pol with
+    | default => simp only [hpol] at hok; exact hok
+    | reusable =>
+      simp only [hpol] at hok
+      have : (s.ok && s.frames.isEmpty) = true := hok
+      simp only [Bool.and_eq_true] at this; exact this.1
+    | mtsafe =>
+      simp only [hpol, allocMtsafe] at hok
+      split at hok
+      · exact hok
+      · simp only [rsAlloc] at hok; split at hok <;> exact hok
+    | stack i =>
+      simp only [hpol] at hok
+      cases hk : s.objs[k]? with
+      | none => simp only [hk] at hok; cases hok
+      | some asz =>
+        simp only [hk, allocStack] at hok
+        split at hok
+        · have : (s.ok && s.frames.all (fun f => f.blk != Blk.ext k)) = true := hok
+          simp only [Bool.and_eq_true] at this; exact this.1
+        · exact hok
+    | placement b =>
+      simp only [hpol] at hok
+      have : (s.ok && s.frames.isEmpty && decide (need s.cfg sz ≤ b)) = true := hok
+      simp only [Bool.and_eq_true] at this; exact this.1.1
+    | buffer i =>
+      simp only [hpol] at hok
+      have : (s.ok && s.frames.isEmpty) = true := hok
+      simp only [Bool.and_eq_true] at this; exact this.1
+  | free id =>
+    simp only [step, stepFree] at hok
+    cases hfind : s.frames.find? (fun f => f.id == id) with
+    | none => simp only [hfind] at hok; cases hok
+    | some f =>
+      simp only [hfind, release] at hok
+      split at hok
+      · split at hok <;> exact hok
+      · split at hok <;> exact hok
+  | newobj => simp only [step, stepNewobj] at hok; split at hok <;> exact hok
+  | bufset n =>
+    simp only [step, stepBufset] at hok
+    split at hok
+    · have : (s.ok && s.frames.isEmpty) = true := hok
+      simp only [Bool.and_eq_true] at this; exact this.1
+    · exact hok
+  | destroy =>
+    have : (s.ok && s.frames.isEmpty) = true := hok
+    simp only [Bool.and_eq_true] at this; exact this.1
+
+theorem run_ok_mono (s : State) (ops : List Op) (hok : (run s ops).ok = true) : s.ok = true := by
+  induction ops generalizing s with
+  | nil => exact hok
+  | cons op ops ih => exact step_ok_mono s op (ih (step s op).1 hok)
+
+theorem run_cfg (s : State) (ops : List Op) : (run s ops).cfg = s.cfg := by
+  induction ops generalizing s with
+  | nil => rfl
+  | cons op ops ih => exact (ih (step s op).1).trans (step_cfg s op)
+
+theorem inv_run {s : State} (hc : CfgOK s.cfg) (h : Inv s) (ops : List Op) (hok : (run s ops).ok = true) :
+    Inv (run s ops) := by
+  induction ops generalizing s with
+  | nil => exact h
+  | cons op ops ih =>
+    have hok1 : (step s op).1.ok = true := run_ok_mono _ ops hok
+    exact ih (by rw [step_cfg]; exact hc) (inv_step hc h op hok1) hok
+
+/-! #### capacity only grows, and a request that fits causes no heap call -/
+
+def Reusing (p : Policy) : Prop := p = Policy.reusable ∨ p = Policy.mtsafe ∨ ∃ i, p = Policy.buffer i
+
+theorem rsAlloc_capBytes (s : State) (n : Nat) (hp : s.cfg.pol = Policy.reusable ∨ s.cfg.pol = Policy.mtsafe) :
+    n ≤ capBytes (rsAlloc s n) ∧ capBytes s ≤ capBytes (rsAlloc s n) := by
+  have e : ∀ t : State, t.cfg = s.cfg → capBytes t = t.cap := by
+    intro t ht; rcases hp with h | h <;> simp [capBytes, ht, h]
+  rw [e _ (rsAlloc_cfg s n), e s rfl]
+  unfold rsAlloc
+  split
+  · simp only []; omega
+  · omega
+
+theorem ceil_le_of_le_mul (a i c : Nat) (hi : 0 < i) (h : a ≤ c * i) : (a + i - 1) / i ≤ c := by
+  have : (a + i - 1) / i < c + 1 := by
+    rw [Nat.div_lt_iff_lt_mul hi, Nat.add_mul]
+    omega
+  omega
+
+theorem bufResized_capBytes (s : State) (i sz : Nat) (hp : s.cfg.pol = Policy.buffer i) (hi : 0 < i)
+    (hv : s.vsize ≤ s.cap) :
+    need s.cfg sz ≤ capBytes (bufResized s i sz) ∧ capBytes s ≤ capBytes (bufResized s i sz) := by
+  have e : ∀ t : State, t.cfg = s.cfg → capBytes t = t.cap * i := by
+    intro t ht; simp [capBytes, ht, hp]
+  rw [e _ (bufResized_fields s i sz).2.2.2.2.1, e s rfl]
+  have h1 := ceil_mul_ge (need s.cfg sz) i hi
+  unfold bufResized
+  split
+  · have h2 := vresize_cap_ge s i ((need s.cfg sz + i - 1) / i)
+    have h3 := Nat.mul_le_mul_right i h2.1
+    have h4 := Nat.mul_le_mul_right i h2.2
+    omega
+  · have h3 : (need s.cfg sz + i - 1) / i ≤ s.cap := by omega
+    have h4 := Nat.mul_le_mul_right i h3
+    omega
+
+/-- serving a frame from the storage's own block leaves it at least as large as the request -/
+theorem alloc_capBytes_ge (s : State) (hc : CfgOK s.cfg) (hv : s.vsize ≤ s.cap) (hr : Reusing s.cfg.pol)
+    (hb : s.cfg.pol = Policy.mtsafe → s.busy = false) (k sz : Nat) :
+    need s.cfg sz ≤ capBytes (step s (Op.alloc k sz)).1 := by
+  simp only [step, stepAlloc]
+  rcases hr with hp | hp | ⟨i, hp⟩
+  · simp only [hp, allocReusable]
+    exact (rsAlloc_capBytes s _ (Or.inl hp)).1
+  · simp only [hp, allocMtsafe, hb hp]
+    exact (rsAlloc_capBytes s _ (Or.inr hp)).1
+  · simp only [hp, allocBuffer]
+    have hi : 0 < i := by simpa [CfgOK, hp] using hc
+    exact (bufResized_capBytes s i sz hp hi hv).1
+
+theorem capBytes_addFrame (s : State) (b : Blk) (sz : Nat) (p : Bool) : capBytes (addFrame s b sz p) = capBytes s := rfl
+
+theorem capBytes_mono_step (s : State) (hc : CfgOK s.cfg) (hv : s.vsize ≤ s.cap) (op : Op) (hd : op ≠ Op.destroy) :
+    capBytes s ≤ capBytes (step s op).1 := by
+  cases op with
+  | alloc k sz =>
+    simp only [step, stepAlloc]
+    cases hp : s.cfg.pol with
+    | default => exact Nat.le_refl _
+    | reusable => simp only [allocReusable]; exact (rsAlloc_capBytes s _ (Or.inl hp)).2
+    | mtsafe =>
+      simp only [allocMtsafe]
+      split
+      · exact Nat.le_refl _
+      · exact (rsAlloc_capBytes s _ (Or.inr hp)).2
+    | stack i =>
+      simp only []
+      cases hk : s.objs[k]? with
+      | none => exact Nat.le_refl _
+      | some asz => simp only [allocStack]; split <;> exact Nat.le_refl _
+    | placement b => exact Nat.le_refl _
+    | buffer i =>
+      simp only [allocBuffer]
+      have hi : 0 < i := by simpa [CfgOK, hp] using hc
+      exact (bufResized_capBytes s i sz hp hi hv).2
+  | free id =>
+    simp only [step, stepFree]
+    cases hfind : s.frames.find? (fun f => f.id == id) with
+    | none => exact Nat.le_refl _
+    | some f =>
+      simp only [release]
+      split
+      · split <;> exact Nat.le_refl _
+      · split <;> exact Nat.le_refl _
+  | newobj => simp only [step, stepNewobj]; split <;> exact Nat.le_refl _
+  | bufset n =>
+    simp only [step, stepBufset]
+    split
+    · rename_i i hp
+      have h2 := vresize_cap_ge s i n
+      have e : ∀ t : State, t.cfg = s.cfg → capBytes t = t.cap * i := by
+        intro t ht; simp [capBytes, ht, hp]
+      rw [e s rfl]
+      show _ ≤ capBytes (vresize s i n)
+      rw [e _ (vresize_cfg s i n)]
+      exact Nat.mul_le_mul_right i h2.1
+    · exact Nat.le_refl _
+  | destroy => exact absurd rfl hd
+
+/-- a request that fits into the storage's own (free) block causes no heap call -/
+theorem alloc_no_heap (s : State) (hc : CfgOK s.cfg) (hr : Reusing s.cfg.pol)
+    (hb : s.cfg.pol = Policy.mtsafe → s.busy = false) (k sz : Nat) (hfit : need s.cfg sz ≤ capBytes s) :
+    (step s (Op.alloc k sz)).1.heap = s.heap := by
+  simp only [step, stepAlloc]
+  rcases hr with hp | hp | ⟨i, hp⟩
+  · simp only [hp, allocReusable, addFrame, rsAlloc]
+    have : ¬ need s.cfg sz > s.cap := by simp only [capBytes, hp] at hfit; omega
+    simp only [this, if_false]
+  · simp only [hp, allocMtsafe, hb hp, addFrame, rsAlloc]
+    have : ¬ need s.cfg sz > s.cap := by simp only [capBytes, hp] at hfit; omega
+    simp [this]
+  · simp only [hp, allocBuffer, addFrame]
+    have hi : 0 < i := by simpa [CfgOK, hp] using hc
+    have hle : (need s.cfg sz + i - 1) / i ≤ s.cap := by
+      apply ceil_le_of_le_mul _ _ _ hi
+      simpa [capBytes, hp] using hfit
+    unfold bufResized vresize
+    split
+    · have : ¬ (need s.cfg sz + i - 1) / i > s.cap := by omega
+      simp only [this, if_false]
+    · rfl
 
 end Cocls.Storage
